@@ -1,6 +1,7 @@
 /-
 C18 — Internal buffers stay bounded (the bounds that are local to one call).
 -/
+import GgrsModel.Model.Inventory
 import GgrsModel.Proofs.RecvBound
 import GgrsModel.Model.Spectator
 import GgrsModel.Proofs.Monad
